@@ -6,12 +6,15 @@ Engine P.  Sections:
                        reflection_across() is the reflection in w (involution, isometry, det -1, fixes the
                        wall, negates w), from_reflection(R) (Geodesic.from_reflection in H^2) gives the wall back
   reflections-ideal-basis  the same walls given by n ideal points: Subspace / Geodesic / Segment .reflection_across()
+                       (+ walls at distance 3, 5, 7 from the origin, keys .../far-wall; the matrix of the reflection
+                       handed to from_reflection as an Isometry and as a bare ndarray = Isometry(ndarray))
   non-reflections      conjugates of rotations, identity, loxodromics, parabolic (H^2), rotary and glide
-                       reflections are rejected with GeometryError
-  coxeter-reflections  generators of hyperbolic_rep() of triangle groups (and rank-4 simplex groups):
-                       from_reflection / reflection_across round trip
-  fixed-points         g h g^-1, g = origin_to(p) for every lattice point p, h standard rotation /
-                       loxodromic / parabolic: fixed_point, fixed_point_pair, axis
+                       reflections (also by 1e-3) are rejected with GeometryError; conjugators up to distance 5
+  coxeter-reflections  generators of hyperbolic_rep() of triangle groups (and rank-4 simplex groups) and their
+                       conjugates by powers of the Coxeter element: from_reflection / reflection_across round trip
+  fixed-points         g h g^-1, g = origin_to(p) for every lattice point p, h standard rotation (angles down to
+                       1e-7) / loxodromic / parabolic, matrices also rescaled by -1, 2, 0.5: fixed_point,
+                       fixed_point_pair, axis, and the options max_eigval=False / sort_eigvals=False
 
   wall-histories       engine E (no merging): query / move / re-set / rebuild / index / flatten / round-trip sequences of
                        depth <= 3 on single and composite walls; the reflection reported at the end is the closed-form
@@ -128,7 +131,13 @@ def case_reflection(case):
     import warnings
     with warnings.catch_warnings(), np.errstate(all="ignore"):
         warnings.simplefilter("ignore")      # the library warns (divide by zero) on the F11 inputs
-        return _case_reflection(case)
+        r = _case_reflection(case)
+    if _far_tag(case):
+        for x in r["v"]:
+            x["key"] += "/far-wall"
+        if "o" in r:
+            r["o"] = "far|" + r["o"]
+    return r
 
 
 def _case_reflection(case):
@@ -174,7 +183,12 @@ def _case_reflection(case):
     if v:
         return {"v": v, "t": t, "o": "bad-reflection", "nt": True}
     # round trip
-    h2 = H.Hyperplane.from_reflection(R)
+    from geometry_tools import GeometryError
+    try:
+        h2 = H.Hyperplane.from_reflection(R)
+    except GeometryError as e:
+        return {"v": [_V("from_reflection/rejects-reflection", "Hyperplane.from_reflection(Hyperplane(%s).reflection_across()) [%s] raises GeometryError: %s"
+                         % (_f(ws), layout, e))], "t": t + 1, "o": "rejected", "nt": True}
     t += 1
     pd2 = np.asarray(h2.proj_data, dtype=float)
     pd2 = [pd2] if layout == "single" else ([pd2[i] for i in range(len(ws))] if pd2.ndim == 3 and pd2.shape[0] == len(ws) else None)
@@ -185,9 +199,15 @@ def _case_reflection(case):
         if prob:
             v.append(_V(prob[0].replace("reflection/from_reflection/", "from_reflection/") if "null-kernel" not in prob[0] else prob[0],
                         "from_reflection(reflection in %s) [%s]: %s" % (_f(w), layout, prob[1])))
-    # the documented ndarray form of the argument (a matrix acting on column vectors, as numpy's eig expects)
+    # the documented ndarray form of the argument: a bare array means what it means everywhere else in the library
+    # (Isometry(ndarray), Transformation(ndarray), .matrix, .proj_data): a matrix acting on row vectors, so that
+    # from_reflection(R.matrix) == from_reflection(Isometry(R.matrix)) == from_reflection(R)
     if not v:
-        h3 = H.Hyperplane.from_reflection(np.swapaxes(np.asarray(R.matrix, dtype=float), -1, -2).copy())
+        try:
+            h3 = H.Hyperplane.from_reflection(np.array(R.matrix, dtype=float))
+        except GeometryError as e:
+            return {"v": [_V("from_reflection/ndarray/rejects-reflection", "Hyperplane.from_reflection(matrix of the reflection in %s, as an ndarray) [%s] raises GeometryError: %s"
+                             % (_f(ws), layout, e))], "t": t + 1, "o": "rejected", "nt": True}
         t += 1
         pd3 = np.asarray(h3.proj_data, dtype=float)
         pd3 = [pd3] if layout == "single" else ([pd3[i] for i in range(len(ws))] if pd3.ndim == 3 and pd3.shape[0] == len(ws) else None)
@@ -198,20 +218,33 @@ def _case_reflection(case):
             if prob:
                 v.append(_V("from_reflection/ndarray/" + prob[0].split("/")[-1], "from_reflection(matrix of the reflection in %s, as an ndarray) [%s]: %s" % (_f(w), layout, prob[1])))
     if n == 2:
-        g = H.Geodesic.from_reflection(R)
-        t += 1
-        gd = np.asarray(g.proj_data, dtype=float)
-        gd = [gd] if layout == "single" else [gd[i] for i in range(len(ws))]
-        for w, e in zip(ws, gd):
-            ok = e.shape == (2, 3) and _finite(e) and np.max(np.abs(e)) < 1e6
-            if ok:
-                ee = np.sum(e * e, axis=-1)
-                light = np.max(np.abs(hyp.mink(e, e)) / ee)
-                orth = np.max(np.abs(hyp.mink(e, w[None, :])) / np.sqrt(ee * float(np.sum(w * w))))
-                apart = float(hyp.proj_sin_err(e[0], e[1]))
-                ok = light <= 1e-7 and orth <= 1e-7 and apart >= 1e-6
-            if not ok and not v:
-                v.append(_V("from_reflection/geodesic", "Geodesic.from_reflection(reflection in %s) = %s is not the wall" % (_f(w), _f(e))))
+        for how in ("isometry", "ndarray"):
+            try:
+                g = H.Geodesic.from_reflection(R if how == "isometry" else np.array(R.matrix, dtype=float))
+            except GeometryError as e:
+                v.append(_V("from_reflection/geodesic-rejects-reflection", "Geodesic.from_reflection(reflection in %s%s) raises GeometryError: %s"
+                            % (_f(ws), "" if how == "isometry" else ", matrix as an ndarray", e)))
+                continue
+            except AttributeError as e:
+                if how == "isometry":
+                    raise
+                # reported under its own key so that the other clauses of the case are not masked
+                v.append(_V("from_reflection/geodesic-ndarray", "Geodesic.from_reflection(matrix of the reflection in %s, as an ndarray) raises AttributeError: %s" % (_f(ws), e)))
+                continue
+            t += 1
+            gd = np.asarray(g.proj_data, dtype=float)
+            gd = [gd] if layout == "single" else [gd[i] for i in range(len(ws))]
+            for w, e in zip(ws, gd):
+                ok = e.shape == (2, 3) and _finite(e) and np.max(np.abs(e)) < 1e6 * (1.0 + np.max(np.abs(w)) / math.sqrt(float(hyp.mink(w, w))))
+                if ok:
+                    ee = np.sum(e * e, axis=-1)
+                    light = np.max(np.abs(hyp.mink(e, e)) / ee)
+                    orth = np.max(np.abs(hyp.mink(e, w[None, :])) / np.sqrt(ee * float(np.sum(w * w))))
+                    apart = float(hyp.proj_sin_err(e[0], e[1]))
+                    ok = light <= 1e-7 and orth <= 1e-7 and apart >= 1e-6
+                if not ok and not v:
+                    v.append(_V("from_reflection/geodesic" + ("" if how == "isometry" else "-ndarray"),
+                                "Geodesic.from_reflection(reflection in %s%s) = %s is not the wall" % (_f(w), "" if how == "isometry" else ", matrix as an ndarray", _f(e))))
     o = "ok|%s|%d|%s" % (layout, int(round(10 * float(hyp.mink(ws[0], ws[0])) / float(case.get("scales", [1.0])[0]) ** 2)),
                          ",".join("%g" % x for x in case.get("scales", [])))
     return {"v": v, "t": t, "o": o, "nt": True}
@@ -320,7 +353,11 @@ def case_nonreflection(case):
                         "%s: Geodesic.from_reflection returned %s instead of raising GeometryError" % (tag, _f(g.proj_data))))
         except GeometryError:
             pass
-    return {"v": v, "t": 2, "o": ("%s|H%d|rejected" % (kind, n)) if not v else "accepted", "nt": kind != "identity"}
+    far = float(np.linalg.norm(case["g"])) > 0.98
+    if far:
+        for x in v:
+            x["key"] += "/far-conjugate"
+    return {"v": v, "t": 2, "o": ("%s|H%d|%srejected" % (kind, n, "far|" if far else "")) if not v else "accepted", "nt": kind != "identity"}
 
 
 def case_coxeter(case):
@@ -332,22 +369,39 @@ def case_coxeter(case):
     n = len(mat) - 1
     J = hyp.J(n)
     v, t = [], 1
-    for s in G.ordered_gens:
-        iso = rep[s]
+    from geometry_tools import GeometryError
+    # the generators, and their conjugates W^-k s W^k by powers of the Coxeter element W = product of all generators
+    # (reflections across walls further and further away from the origin)
+    W = rep[G.ordered_gens[0]]
+    for s in G.ordered_gens[1:]:
+        W = W @ rep[s]
+    Wk = H.identity(n)
+    todo = []
+    for k in range(case.get("conj", 0) + 1):
+        for s in G.ordered_gens:
+            todo.append((k, s, rep[s] if k == 0 else Wk.inv() @ rep[s] @ Wk))
+        Wk = Wk @ W
+    for k, s, iso in todo:
         M = np.asarray(iso.proj_data, dtype=float)
-        tag = "generator %s of the Coxeter group %s" % (s, mat)
-        # precondition (C08): the generator is a reflection of the Minkowski form
+        tag = "generator %s of the Coxeter group %s" % (s, mat) + (" conjugated by the %d-th power of the Coxeter element (|M| = %.3g)" % (k, np.max(np.abs(M))) if k else "")
+        # precondition (C08): the generator is a reflection of the Minkowski form (conjugates: to the accuracy of a
+        # product of matrices of that size)
         pre = max(float(np.max(np.abs(M @ M - np.eye(n + 1)))), float(np.max(np.abs(M @ J @ M.T - J))))
-        if not (pre <= 1e-8 and abs(np.linalg.det(M) + 1) <= 1e-8):
+        ptol = 1e-8 if k == 0 else 1e-8 + 1e3 * np.finfo(float).eps * float(np.max(np.abs(M))) ** 2
+        if not (pre <= ptol and abs(np.linalg.det(M) + 1) <= (1e-8 if k == 0 else 1e-6)) or np.max(np.abs(M)) > 1e6:
             continue
-        h = H.Hyperplane.from_reflection(iso)
+        try:
+            h = H.Hyperplane.from_reflection(iso)
+        except GeometryError as e:
+            v.append(_V("coxeter/from_reflection/rejects-reflection" + ("/conjugate" if k else ""), "%s: from_reflection raises GeometryError: %s" % (tag, e)))
+            continue
         t += 1
         pd = np.asarray(h.proj_data, dtype=float)
         w = pd[0].copy() if pd.ndim == 2 else None
         if w is None or not _finite(w) or not float(hyp.mink(w, w)) > 0:
             v.append(_V("coxeter/from_reflection/normal", "%s: hyperplane data %r" % (tag, pd)))
             continue
-        e = float(np.max(np.abs(w @ M + w))) / float(np.max(np.abs(w)))
+        e = float(np.max(np.abs(w @ M + w))) / float(np.max(np.abs(w))) / max(1.0, float(np.max(np.abs(M))))
         if not e <= 1e-7:
             v.append(_V("coxeter/from_reflection/normal", "%s: the recovered normal %s is not negated by the generator (%.3g)" % (tag, _f(w), e)))
             continue
@@ -371,12 +425,41 @@ def _qnorm(x):
     return hyp.mink(x, x) / np.sum(x * x, axis=-1)
 
 
+SMALL_ANGLES = [1e-3, 1e-5, 1e-7]
+MATRIX_SCALES = [-1.0, 2.0, 0.5]        # c * A is the same projective map as A (property C12)
+
+
 def case_fixed(case):
     from geometry_tools import hyperbolic as H
     n, kind, param = case["n"], case["kind"], case["param"]
-    iso = _conj(H, n, case["g"], _standard(H, n, kind, param))
+    c = float(case.get("scale", 1.0))
+    h0 = _standard(H, n, kind, param)
+    G = H.Point(np.array(case["g"], dtype=float), model="klein").origin_to()
+    iso = G @ h0 @ G.inv()
     tag = "conjugate by origin_to(%s) of the standard %s(%s) of H^%d" % (_f(case["g"]), kind, param, n)
-    return _fixed_checks(H, iso, iso, n, kind, case["probe"], tag)
+    if c != 1.0:
+        iso = H.Isometry(c * np.array(iso.proj_data, dtype=float))
+        tag = "Isometry(%g * matrix of the %s)" % (c, tag)
+    r = _fixed_checks(H, iso, iso, n, kind, case["probe"], tag)
+    if kind == "rotation" and not [x for x in r["v"] if "unsorted-option" not in x["key"]]:
+        # "is fixed" is blind for small angles (a rotation by 1e-7 moves nothing by more than 1e-7): the fixed points of
+        # G h G^-1 are the images under G of the coordinate subspace that the standard rotation h fixes pointwise
+        h0m = np.asarray(h0.proj_data, dtype=float)
+        moving = [i for i in range(n + 1) if abs(h0m[i, i] - 1.0) > 0 or np.max(np.abs(np.delete(h0m[i], i))) > 0]
+        fp = np.asarray(iso.fixed_point().proj_data, dtype=float)
+        x = np.asarray((G.inv() @ H.Point(fp.copy())).proj_data, dtype=float)
+        r["t"] += 2
+        off = float(np.max(np.abs(x[moving]))) / float(np.max(np.abs(x)))
+        if not off <= 1e-6:
+            r["v"].append(_V("fixed_point/elliptic/off-the-fixed-subspace",
+                             "%s: fixed_point() = %s, pulled back by origin_to: %s, has relative size %.3g in the rotating plane (coordinates %s)"
+                             % (tag, _f(fp), _f(x), off, moving)))
+    suffix = "/rescaled-matrix" if c != 1.0 else ("/small-angle" if kind == "rotation" and param < 1e-2 else "")
+    for x in r["v"]:
+        x["key"] += suffix
+    if suffix and "o" in r:
+        r["o"] = suffix[1:] + "|" + r["o"]
+    return r
 
 
 def _fixed_checks(H, iso, act, n, kind, probe, tag):
@@ -394,6 +477,7 @@ def _fixed_checks(H, iso, act, n, kind, probe, tag):
             # 1-eigenspace contains no timelike vector.  Decide that independently, so that any OTHER
             # failure on rotations of H^n, n >= 3, keeps its own key.
             Mt = np.asarray(act.proj_data, dtype=float).T
+            Mt = Mt / (abs(np.linalg.det(Mt)) ** (1.0 / (n + 1)) * (1.0 if np.trace(Mt) >= 0 else -1.0))
             w, V = np.linalg.eig(Mt)
             ones = [i for i in range(len(w)) if abs(w[i] - 1.0) < 1e-6]
             has_timelike = any(float(_qnorm(np.real(V[:, i]))) < -1e-6 for i in ones if np.max(np.abs(np.imag(V[:, i]))) < 1e-9)
@@ -420,6 +504,35 @@ def _fixed_checks(H, iso, act, n, kind, probe, tag):
         v.append(_V(fkey, "%s: fixed_point() = %s lies outside the closed ball (relative Minkowski norm %.3g)" % (tag, _f(fp), qf)))
     out = "%s|%s|%s" % (kind, "int" if qf < -1e-6 else ("ideal" if qf <= ftol else "ext"),
                         np.round(fp[1:] / fp[0], 1).tolist() if fp[0] != 0 else "inf")
+
+    # the documented options max_eigval=False / sort_eigvals=False: only what the docstrings promise without the
+    # ordering guarantee - a fixed point in the closed ball; the two ideal endpoints of the axis in any order
+    if kind != "identity":
+        try:
+            fp2 = np.asarray(iso.fixed_point(max_eigval=False).proj_data, dtype=float)
+            pair2 = np.asarray(iso.fixed_point_pair(sort_eigvals=False).proj_data, dtype=float) if kind == "loxodromic" else None
+        except ValueError as e:
+            if "same number of dimensions" not in str(e):
+                raise
+            # (reported under its own key so that the other clauses of the case are not masked)
+            v.append(_V("fixed_point/unsorted-option/raises", "%s: fixed_point(max_eigval=False) / fixed_point_pair(sort_eigvals=False) raises ValueError: %s" % (tag, e)))
+            fp2 = pair2 = None
+        t += 2
+        if fp2 is not None:
+            if fp2.shape != (n + 1,) or not _finite(fp2) or not np.any(fp2 != 0):
+                v.append(_V("fixed_point/unsorted-option/%s" % kind, "%s: fixed_point(max_eigval=False) = %r" % (tag, fp2)))
+            else:
+                e2, q2f = fixed_err(fp2), float(_qnorm(fp2))
+                if not (e2 <= ftol and q2f <= ftol):
+                    v.append(_V("fixed_point/unsorted-option/%s" % kind,
+                                "%s: fixed_point(max_eigval=False) = %s: sine of the angle with its image %.3g, relative Minkowski norm %.3g (not a fixed point in the closed ball)"
+                                % (tag, _f(fp2), e2, q2f)))
+        if pair2 is not None:
+            okp = pair2.shape == (2, n + 1) and _finite(pair2)
+            if okp:
+                okp = fixed_err(pair2) <= 1e-6 and float(np.max(np.abs(_qnorm(pair2)))) <= 1e-6 and float(hyp.proj_sin_err(pair2[0], pair2[1])) >= 1e-3
+            if not okp:
+                v.append(_V("fixed_point_pair/unsorted-option/loxodromic", "%s: fixed_point_pair(sort_eigvals=False) = %s is not the pair of ideal endpoints of the axis" % (tag, _f(pair2))))
 
     if kind == "loxodromic":
         pair = np.asarray(iso.fixed_point_pair().proj_data, dtype=float)
@@ -502,8 +615,33 @@ def scaled_normal(w, s):
     return [float(s) * float(x) for x in w]
 
 
+FAR_DISTANCES = [3.0, 5.0, 7.0]
+
+
+def far_normals(n, seed):
+    """Unit normals (sinh D, cosh D * d) of walls at distance D from the origin, d an axis direction, the diagonal and
+    two generic directions."""
+    dirs = [np.eye(n)[0], -np.eye(n)[n - 1], np.ones(n) / math.sqrt(n)] + [lattice.generic_dir(n, 300 + k, seed) for k in range(2)]
+    return [[math.sinh(D)] + [math.cosh(D) * float(x) for x in d] for D in FAR_DISTANCES for d in dirs]
+
+
+def _far_tag(case):
+    """input class of a reflection case: walls further than 2.5 from the origin (|w0| / sqrt<w,w> = sinh D > 6)"""
+    for w in case["normals"]:
+        w = np.array(w, dtype=float)
+        if abs(w[0]) / math.sqrt(float(hyp.mink(w, w))) > 6.0:
+            return True
+    return False
+
+
 def reflection_cases(n, values, ngen, seed):
     ws = lattice_normals(n, values) + generic_normals(n, ngen, seed)
+    far = far_normals(n, seed)
+    for i, w in enumerate(far):
+        yield {"n": n, "layout": "single", "normals": [w]}
+        yield {"n": n, "layout": "single", "normals": [scaled_normal(w, -0.01)], "scales": [-0.01]}
+        yield {"n": n, "layout": "composite", "normals": [w, ws[(7 * i) % len(ws)]]}
+        yield {"n": n, "layout": "composite", "normals": [far[(i + 6) % len(far)], w]}
     for w in ws:
         yield {"n": n, "layout": "single", "normals": [w]}
     for i in range(len(ws)):
@@ -541,9 +679,18 @@ def nonreflection_cases(q, seed):
             std.append(("parabolic", 1))
         else:
             std += [("rotoreflection", a) for a in ANGLES[:2]]
+        # non-reflections that are close to a reflection: a glide reflection of translation length 1e-3, a rotary
+        # reflection by 1e-3 rad (they differ from every reflection by 1e-3)
+        near = [("glide", 1.001)] + ([("rotoreflection", 1e-3)] if n >= 3 else [])
         for g in _points(n, q, seed):
-            for kind, param in std:
+            for kind, param in std + near:
                 yield {"n": n, "g": g, "kind": kind, "param": param}
+        # conjugates by isometries that move the origin by 3 and 5 (matrices of norm e^6, e^10)
+        for D in FAR_DISTANCES[:2]:
+            for k in range(3):
+                g = [math.tanh(D) * float(x) for x in lattice.generic_dir(n, 320 + k, seed)]
+                for kind, param in std:
+                    yield {"n": n, "g": g, "kind": kind, "param": param}
 
 
 def fixed_cases(q, seed):
@@ -556,6 +703,12 @@ def fixed_cases(q, seed):
         for i, g in enumerate(P):
             for kind, param in std:
                 yield {"n": n, "g": g, "kind": kind, "param": param, "probe": P[(i + 3) % len(P)]}
+            # rotations by small angles; the same projective maps given by rescaled matrices
+            for a in SMALL_ANGLES:
+                yield {"n": n, "g": g, "kind": "rotation", "param": a, "probe": P[(i + 3) % len(P)]}
+            for c in MATRIX_SCALES:
+                for kind, param in std[:3] + [std[len(ANGLES) + (0 if q else 3)], ("rotation", SMALL_ANGLES[1])]:
+                    yield {"n": n, "g": g, "kind": kind, "param": param, "probe": P[(i + 3) % len(P)], "scale": c}
 
 
 # ------------------------------------------------------------------------------------------
@@ -653,7 +806,7 @@ def case_fixed_composite(case):
 
 def fixed_composite_cases(q, seed):
     for n in (2, 3, 4):
-        allc = list(c for c in fixed_cases(q, seed) if c["n"] == n and c["kind"] != "parabolic")
+        allc = list(c for c in fixed_cases(q, seed) if c["n"] == n and c["kind"] != "parabolic" and "scale" not in c)
         for (size, shape) in ((5, [5]), (6, [2, 3]), (1, [1])):
             blocks = [allc[i:i + size] for i in range(0, len(allc) - size + 1, size)]
             # interleave kinds so that eigen-orders differ inside one array
@@ -911,7 +1064,9 @@ def case_iso_history(hist):
     r = _fixed_checks(H, h, H.Isometry(M.copy()), n, kind, root["probe"], tag)
     for x in r["v"]:
         x["key"] = "history/" + x["key"]
-    ops = [] if (r["v"] or len(hist) - 1 >= HIST_DEPTH) else _iso_ops(kind)
+    # (a violation of the option clauses alone does not stop the exploration: it says nothing about the state)
+    stop = [x for x in r["v"] if "unsorted-option" not in x["key"]]
+    ops = [] if (stop or len(hist) - 1 >= HIST_DEPTH) else _iso_ops(kind)
     kinds = "+".join(sorted({o[0] for o in hist[1:]}))
     return {"v": r["v"], "t": t + r["t"], "o": "%d|%s|%s" % (n, kind, kinds), "nt": len(hist) > 1,
             "key": repr(hist[1:]) + "@%s" % root["id"], "ops": ops}
@@ -935,6 +1090,9 @@ def _lin4(a, b, c):
     return [[1, a, 2, 2], [a, 1, b, 2], [2, b, 1, c], [2, 2, c, 1]]
 
 
+COX_CONJ = 4         # conjugates of the generators by the first 4 powers of the Coxeter element
+
+
 def coxeter_cases(q):
     tri = [(2, 3, 7), (2, 4, 5), (3, 3, 4), (2, 3, 8), (3, 4, 5), (4, 4, 4), (2, 5, 5)]
     if not q:
@@ -942,10 +1100,10 @@ def coxeter_cases(q):
                       if 1.0 / t[0] + 1.0 / t[1] + 1.0 / t[2] < 1.0 - 1e-9})
     for t in tri:
         for perm in sorted(set(itertools.permutations(t))) if q else [t]:
-            yield {"matrix": _tri(*perm)}
+            yield {"matrix": _tri(*perm), "conj": COX_CONJ}
     # the compact hyperbolic simplex groups of rank 4 with a linear diagram
     for abc in [(3, 5, 3), (5, 3, 4), (4, 3, 5), (5, 3, 5)]:
-        yield {"matrix": _lin4(*abc)}
+        yield {"matrix": _lin4(*abc), "conj": COX_CONJ}
 
 
 def run(ctx):
@@ -968,6 +1126,11 @@ def run(ctx):
                 "conjugate; every generator of the listed Coxeter groups; a case is non-trivial unless the isometry is the identity")
     ctx.assume("normals are spacelike: lambda * w with w of Minkowski norm > 0.2 (lattice coordinates are floats) and lambda = 1 or, for a sub-lattice, "
                "lambda in %s (a normal is a homogeneous vector; being spacelike does not depend on its scale)" % NORMAL_SCALES)
+    ctx.assume("far walls: unit normals (sinh D, cosh D d), D in %s (reflection matrices of norm cosh 2D <= 6e5); non-reflections are conjugated by "
+               "isometries moving the origin by at most 5 (beyond that the eigenvalues of a matrix of norm e^2D no longer separate a rotation from a reflection)" % FAR_DISTANCES)
+    ctx.assume("a bare ndarray handed to from_reflection means Isometry(ndarray) (a matrix acting on row vectors, like every other array in the library)")
+    ctx.assume("rescaled matrices c * A, c in %s, are the same isometry (projective map, property C12); rotation angles >= 1e-7" % MATRIX_SCALES)
+    ctx.assume("max_eigval=False / sort_eigvals=False: only a fixed point in the closed ball / the two ideal endpoints of a loxodromic's axis in any order are demanded")
     ctx.assume("composite normals use the layout (N, 1, n+1) that Hyperplane accepts; (N, n+1) is outside the property")
     ctx.assume("conjugating isometries are origin_to() of lattice points with |k| <= %s; translation multipliers in %s"
                % ("0.9" if q else "0.97", "{1.3, 2, 5, 0.5}" if q else "{1.3, 2, 5, 0.5, 1.5, 3, 0.25}"))
@@ -976,6 +1139,7 @@ def run(ctx):
     ctx.assume("Coxeter generators are checked only when they are reflections of the Minkowski form to 1e-8 (that is property C08)")
     ctx.tolerances["reflection identities"] = "1e-9 (1 + max|R|^2): products of well-conditioned matrices"
     ctx.tolerances["from_reflection"] = "1e-7 (sine of angles): eigenvector of a simple eigenvalue -1 of a non-normal matrix"
+    ctx.tolerances["fixed subspace of a rotation"] = "fixed_point() pulled back by the conjugator has relative size <= 1e-6 in the rotating coordinate plane (|conjugator| <= 8; measured 1e-12)"
     ctx.tolerances["fixed points"] = "1e-6 sine of the angle with the image / relative Minkowski norm; parabolic 1e-3"
     ctx.tolerances["attracting end"] = "60 iterations contract by (1/lambda^2)^60 <= 2e-14; compared at 1e-6"
     for n in (2, 3, 4):
@@ -987,6 +1151,8 @@ def run(ctx):
         ctx.product(name, "checks.c15:case_reflection", cases, chunk=32,
                     domains={"lattice": values, "spacelike normals": len(lattice_normals(n, values)), "generic normals": 6 if q else 24,
                              "layouts": ["(n+1,)", "(2,1,n+1)"],
+                             "far walls": "unit normals (sinh D, cosh D d), D in %s, d in {e_1, -e_n, diagonal, 2 generic}; single, rescaled by -0.01, composite with a near and with another far wall" % FAR_DISTANCES,
+                             "from_reflection argument": ["Isometry", "ndarray (= Isometry(ndarray))"],
                              "scaled normals": "every %d-th normal of the list multiplied by each of %s (single; composites pairing two scales and a "
                                                "scaled with an unscaled normal): same wall, same closed-form reflection" % (SCALED_STRIDE[n], NORMAL_SCALES)})
     if want("reflections-ideal-basis"):
@@ -995,10 +1161,12 @@ def run(ctx):
                              "constructors": ["Subspace", "Geodesic (n=2)", "Segment (n=2)"]})
     if want("non-reflections"):
         ctx.product("non-reflections", "checks.c15:case_nonreflection", list(nonreflection_cases(q, seed)), chunk=32,
-                    domains={"n": [2, 3, 4], "angles": ANGLES, "multipliers": LOX, "kinds": ["identity", "rotation", "loxodromic", "parabolic(n=2)", "rotoreflection(n>=3)", "glide"]})
+                    domains={"n": [2, 3, 4], "angles": ANGLES, "multipliers": LOX, "kinds": ["identity", "rotation", "loxodromic", "parabolic(n=2)", "rotoreflection(n>=3)", "glide"],
+                             "near-reflections": "glide(1.001), rotoreflection(1e-3)", "far conjugators": "3 generic directions at distance 3 and 5 (keys .../far-conjugate)"})
     if want("coxeter-reflections"):
         ctx.product("coxeter-reflections", "checks.c15:case_coxeter", list(coxeter_cases(q)), chunk=2,
-                    domains={"triangle groups": "quick: 7 triples, all orders; thorough: all hyperbolic (p,q,r) with entries <= 8", "rank 4": "linear diagrams [3,5,3] [5,3,4] [4,3,5] [5,3,5]"})
+                    domains={"triangle groups": "quick: 7 triples, all orders; thorough: all hyperbolic (p,q,r) with entries <= 8", "rank 4": "linear diagrams [3,5,3] [5,3,4] [4,3,5] [5,3,5]",
+                             "reflections": "the generators and their conjugates by the first %d powers of the Coxeter element while |matrix| <= 1e6" % COX_CONJ})
     if want("wall-histories"):
         roots = wall_history_roots(seed)
         ctx.bfs("wall-histories", "checks.c15:case_wall_history", roots, depth=HIST_DEPTH, chunk=32,
@@ -1030,4 +1198,6 @@ def run(ctx):
                              "generators": INT_GENS, "packagings": INT_DTYPES,
                              "oracle": "the fixed-point clauses of section fixed-points, acting with the float64 copy of the matrix"})
         ctx.product("fixed-points", "checks.c15:case_fixed", list(fixed_cases(q, seed)), chunk=16,
-                    domains={"n": [2, 3, 4], "conjugators": "origin_to of P_n", "angles": ANGLES, "multipliers": LOX, "parabolic": "sl2_iso([[1,1],[0,1]]) (n=2)"})
+                    domains={"n": [2, 3, 4], "conjugators": "origin_to of P_n", "angles": ANGLES + SMALL_ANGLES, "multipliers": LOX, "parabolic": "sl2_iso([[1,1],[0,1]]) (n=2)",
+                             "matrix scales": "1, and %s for rotation(0.7, 2.0, pi, 1e-5) and loxodromic(1.3)" % MATRIX_SCALES,
+                             "options": "defaults, and max_eigval=False / sort_eigvals=False (also in the integer-isometry and history sections)"})
